@@ -143,6 +143,21 @@ def ecdsa_verify(cv, Q, digest, r, s):
     return R[0] % n == r
 
 
+def ecss_verify(cv, Q, msg, e, s, fbytes):
+    """EC-Schnorr as relic defines it: R = sG + eQ, e' = leftmost bits of SHA-256(msg | x(R) mod n) mod n; with
+    public-key validation (not the identity, on the curve)."""
+    n = cv.n
+    if not (0 <= e < n and 1 <= s < n):
+        return False
+    if Q is None or not cv.on_curve(Q):
+        return False
+    R = cv.add(cv.mul(s, cv.G), cv.mul(e, Q))
+    rv = 0 if R is None else R[0] % n
+    h = hashlib.sha256(msg + rv.to_bytes(fbytes, 'big')).digest()
+    ev = bits2int_leftmost(h, n.bit_length()) % n
+    return ev == e
+
+
 # ----------------------------------------------------------------------------- RSA (RFC 8017)
 
 def rsa_pss_verify(n, e, mhash, sig, slen=0):
